@@ -239,7 +239,11 @@ func (c *compiler) compile(slice bigslice.Slice, part partitioner) (tasks []*Tas
 		}
 		// We now insert a set of tasks whose only purpose is (re-)shuffling
 		// the output from the previously completed task.
-		shuffleOpName := c.namer.New(fmt.Sprintf("%s_shuffle", result.tasks[0].Name.Op))
+		// The op name includes this invocation's index, like every other
+		// op compiled for it: the result's own op name is shared by all
+		// invocations that re-shuffle the result, and task output is stored
+		// by op name.
+		shuffleOpName := c.namer.New(fmt.Sprintf("inv%d_%s_shuffle", c.inv.Index, result.tasks[0].Name.Op))
 		tasks = make([]*Task, len(result.tasks))
 		for shard, task := range result.tasks {
 			tasks[shard] = &Task{
